@@ -302,3 +302,15 @@ message!(
     "msg1303": Msg1303(msg1303) = 1303,
     "msg1304": Msg1304(msg1304) = 1304
 );
+
+/// Verification hooks (only with `--cfg rtcm_rs_verif`): construct a builder in an
+/// arbitrary internal state and look at that state.
+#[cfg(rtcm_rs_verif)]
+impl MessageBuilder {
+    pub fn verif_from_raw(data: [u8; 1029], has_run: bool) -> Self {
+        MessageBuilder { data, has_run }
+    }
+    pub fn verif_raw(&self) -> (&[u8; 1029], bool) {
+        (&self.data, self.has_run)
+    }
+}
